@@ -30,13 +30,14 @@ D = "xml::decode::"
 def pullers(f):
     """decode.rs functions that pull events directly / after resetting the limit."""
     raw, limited = set(), set()
+    RL = (_methods(f, D + "Reader", "reset_and_limit") or [D + "Reader::<R>::reset_and_limit"])[0]
     for n, b in f.bodies.items():
         if not n.startswith(D) or "::{closure" in n:
             continue
         cs = [c for c in b.calls() if not b.is_cleanup(c.bb) and c.is_static]
         pulls = [c for c in cs if re.search(r"read_(resolved_)?event_into$", c.res or "")]
-        resets = [c for c in cs if c.res == D + "Reader::<R>::reset_and_limit"]
-        inner = [c for c in cs if (c.res or "").startswith(D) and c.res != D + "Reader::<R>::reset_and_limit" and c.res in f.bodies]
+        resets = [c for c in cs if c.res == RL]
+        inner = [c for c in cs if (c.res or "").startswith(D) and c.res != RL and c.res in f.bodies]
         if pulls:
             raw.add(n)
         elif resets and inner:
@@ -68,6 +69,7 @@ def run(ctx):
     ctx.rule("R-PANIC", "arithmetic that hostile input can drive to overflow")
 
     raw, limited = pullers(f)
+    RL_ = (_methods(f, D + "Reader", "reset_and_limit") or [D + "Reader::<R>::reset_and_limit"])[0]
     ctx.floor("R-CHK", "raw event pullers in xml::decode", len(raw), 6)
     ctx.floor("R-CHK", "limit-resetting wrappers in xml::decode", len(limited), 4)
     consts = {k: v.get("v") for k, v in f.consts.items() if k in ("rrdp::MAX_FILE_SIZE", "rrdp::MAX_HEADER_SIZE")}
@@ -81,7 +83,7 @@ def run(ctx):
             continue
         cs = [c for c in b.calls() if not b.is_cleanup(c.bb) and c.is_static]
         pulls = [c for c in cs if c.res in raw]
-        lims = [c for c in cs if c.res in limited or c.res == D + "Reader::<R>::reset_and_limit"]
+        lims = [c for c in cs if c.res in limited or c.res == RL_]
         if not pulls and not lims:
             continue
         nbodies += 1
@@ -122,54 +124,66 @@ def run(ctx):
                "with a limit", where=c.where())
 
     # ---- C09.b the trip computer ------------------------------------------------------------
-    BR = D + "BufReadCounter"
-    fb = f.find_bodies(r"^<xml::decode::BufReadCounter<R> as std::io::BufRead>::fill_buf$")
-    if len(fb) != 1:
-        ctx.missing("R-REG", "BufReadCounter::fill_buf", "fill_buf")
+    # The counting reader and its two counters are found by what they do, not by their (private) names: the type
+    # quick-xml is instantiated with inside the public xml::decode::Reader; "trip" is the integer field its
+    # BufRead::consume accumulates into, "limit" the other one.
+    cm = counter_model(f)
+    BR = cm["adt"]
+    RL = cm["reset_and_limit"]
+    TRIP, LIMIT, INNER = cm["trip"], cm["limit"], cm["inner"]
+    fb = cm["fill_buf"]
+    if fb is None or TRIP is None or LIMIT is None:
+        ctx.missing("R-REG", "BufReadCounter::fill_buf", "fill_buf of the counting reader / its two counters (%s)" % cm["problem"])
     else:
-        fb = fb[0]
         ctx.saw_fn(fb.name)
-        paths, it, err = K.run_absint(f, fb.name, sym_names={"self.limit": "limit", "self.trip": "trip"})
+        paths, it, err = K.run_absint(f, fb.name, sym_names={"self.%s" % LIMIT: "limit", "self.%s" % TRIP: "trip"},
+                                      inline=lambda n: _is_counter_helper(f, cm, n))
         if paths is None:
             ctx.ob("R-REG", "fill_buf:analysable", False, "cannot establish: " + err, where=fb.loc)
         else:
-            ok_ret = lambda p: outcome_str(p.outcome).startswith("return BufRead::fill_buf(self.reader)") or \
-                re.match(r"^return \w+::fill_buf\(self\.reader\)$", outcome_str(p.outcome)) is not None
+            inner_rx = re.compile(r"^return \w+::fill_buf\(self\.%s\)" % re.escape(INNER or "reader"))
+            ok_ret = lambda p: inner_rx.match(outcome_str(p.outcome)) is not None
             err_ret = lambda p: outcome_str(p.outcome).startswith("return Err(")
             K.check_regions(ctx, "R-REG", "BufReadCounter::fill_buf", paths, it, [
                 ("limit=0", RC("limit", 0, 0), ok_ret, "delegates to the inner reader (no limit)"),
                 ("limit>0, trip≤limit", RC("limit", 1, None) + RC(("trip", "limit"), None, 0), ok_ret, "delegates to the inner reader"),
                 ("limit>0, trip>limit", RC("limit", 1, None) + RC(("trip", "limit"), 1, None), err_ret, "Err (limit exceeded)"),
             ], fb.loc)
-    cb = f.find_bodies(r"^<xml::decode::BufReadCounter<R> as std::io::BufRead>::consume$")
-    if len(cb) == 1:
-        cb = cb[0]
-        s = K.sym_of(cb)
-        ok = False
-        det = None
-        for blk in cb.blocks:
-            for st in blk["stmts"]:
-                if st["s"] == "assign" and any(p[0] == "f" and p[1] == "trip" for p in st["pl"]["p"]):
-                    det = render(strip_deep(s.rvalue(st["rv"])))
-                    ok = re.match(r"^num::saturating_add\(self\.trip, Result::unwrap_or_default\(TryFrom::try_from\(amt\)\)\)$", det) is not None
-        fw = [K.arg_renders(c) for c in cb.calls() if c.name == "consume" and not cb.is_cleanup(c.bb)]
-        ctx.ob("R-REG", "BufReadCounter::consume", ok and fw == [["self.reader", "amt"]],
-               "consume adds the consumed amount to trip (saturating) and forwards it to the inner reader", where=cb.loc, detail=[det, fw])
-    for meth, fld, val in (("reset", "trip", "0"), ("limit", "limit", "limit")):
-        b = f.body("%s::<R>::%s" % (BR, meth))
-        if b is None:
-            ctx.missing("R-REG", "BufReadCounter::" + meth, meth)
-            continue
-        s = K.sym_of(b)
-        got = [(p[1], render(strip_deep(s.rvalue(st["rv"])))) for blk in b.blocks for st in blk["stmts"] if st["s"] == "assign"
-               for p in st["pl"]["p"] if p[0] == "f"]
-        ctx.ob("R-REG", "BufReadCounter::" + meth, got == [(fld, val)], "BufReadCounter::%s sets %s := %s" % (meth, fld, val),
-               where=b.loc, detail=got)
-    rl = f.body(D + "Reader::<R>::reset_and_limit")
-    if rl is not None:
-        got = sorted((short(c.res), K.arg_renders(c)[1:]) for c in rl.calls() if (c.res or "").startswith(BR))
-        ctx.ob("R-REG", "Reader::reset_and_limit", got == [("BufReadCounter::limit", ["limit"]), ("BufReadCounter::reset", [])],
-               "reset_and_limit zeroes the counter and installs the given limit", where=rl.loc, detail=got)
+    cb = cm["consume"]
+    if cb is not None and TRIP is not None:
+        amt = ("param", cb.local_name(2) or "_2")
+        ws = [w for w in counter_writes(f, cm, cb) if w["field"] == TRIP]
+        ok = len(ws) == 1 and _is_saturating_accumulate(ws[0]["value"], TRIP, amt)
+        fw = [[strip_deep(a) for a in K.arg_terms(c)] for c in cb.calls() if c.name == "consume" and not cb.is_cleanup(c.bb)]
+        okf = len(fw) == 1 and len(fw[0]) == 2 and render(fw[0][0]) == "self.%s" % INNER and fw[0][1] == amt
+        ctx.ob("R-REG", "BufReadCounter::consume", ok and okf,
+               "consume adds the consumed amount to trip (saturating) and forwards it to the inner reader", where=cb.loc,
+               detail=[[render(w["value"]) for w in ws], [[render(a) for a in x] for x in fw]])
+    # what Reader::reset_and_limit does to the counter, through whatever helpers (merged, split, renamed, folded in):
+    # on every path it writes trip := 0 and limit := its parameter, and writes nothing else into them
+    rl = f.body(RL) if RL else None
+    if rl is None or TRIP is None or LIMIT is None:
+        for meth in ("reset", "limit"):
+            ctx.missing("R-REG", "BufReadCounter::" + meth, "Reader::reset_and_limit / the counters of the counting reader")
+    else:
+        ctx.saw_fn(rl.name)
+        ws = counter_writes(f, cm, rl)
+        must = counter_must_write(f, cm, rl)
+        lim_param = ("param", rl.local_name(2) or "_2")
+        per = {}
+        for fld, label, want, text in ((TRIP, "reset", lambda v: _const_is(v, 0), "0"),
+                                       (LIMIT, "limit", lambda v: _unmut(v) == lim_param, "the limit argument")):
+            mine = [w for w in ws if w["field"] == fld]
+            good = bool(mine) and all(want(w["value"]) for w in mine) and fld in must
+            per[label] = good
+            ctx.ob("R-REG", "BufReadCounter::" + label, good,
+                   "resetting sets %s := %s (on every path of Reader::reset_and_limit, and nothing else is ever written there)"
+                   % ("trip" if label == "reset" else "limit", text), where=rl.loc,
+                   detail=[(w["field"], render(w["value"]), w["via"]) for w in mine] + [{"written_on_every_path": sorted(must)}])
+        own = all(w["base_roots"] == {"self"} for w in ws)
+        ctx.ob("R-REG", "Reader::reset_and_limit", all(per.values()) and own and len(per) == 2,
+               "reset_and_limit zeroes the counter of its own reader and installs the given limit", where=rl.loc,
+               detail=[(w["field"], render(w["value"]), w["via"], sorted(w["base_roots"])) for w in ws])
     # "parsing any byte stream returns an error or a value without panicking"; the chain and origin checks for any limit
     from props import C04
     entries = [n for n, r in f.fns.items() if r.get("has_body") and r.get("exported") and
@@ -196,9 +210,11 @@ def run(ctx):
            "any per-element limit", detail={"root": roots_, "elements": elems})
     # who may zero the counter: only reset_and_limit, and never from inside a loop of the event pullers (a reset per
     # skipped comment / declaration would make the limit per event instead of per element)
-    cs = calls_to(f, lambda c: c.res in ("%s::<R>::reset" % BR, "%s::<R>::limit" % BR))
-    who = sorted({root_fn(f, c.body.name) for c in cs if not c.body.is_cleanup(c.bb)})
-    ctx.ob("R-WHO", "BufReadCounter::reset/limit-callers", who == [D + "Reader::<R>::reset_and_limit"],
+    # Direct writers: every body of the crate that assigns one of the two counters of an existing counting reader, other
+    # than consume's accumulation.  A private (inherent) method of the counting reader is plumbing: it counts for
+    # whoever calls it.  What remains must be Reader::reset_and_limit alone.
+    who, resetters = counter_resetters(f, cm)
+    ctx.ob("R-WHO", "BufReadCounter::reset/limit-callers", bool(RL) and who == [RL],
            "the byte counter is zeroed / re-limited only by Reader::reset_and_limit", detail=who)
     inloop = []
     nres = 0
@@ -206,12 +222,12 @@ def run(ctx):
         if not n.startswith(D) or is_derived_body(b):
             continue
         sccs = b.cycles_sccs()
-        for c in b.calls():
-            if b.is_cleanup(c.bb) or c.res not in (D + "Reader::<R>::reset_and_limit", "%s::<R>::reset" % BR):
-                continue
+        sites = [(c.bb, c.where()) for c in b.calls() if not b.is_cleanup(c.bb) and c.res in resetters]
+        sites += [(w["bb"], b.where(w["bb"])) for w in counter_writes(f, cm, b, depth=0) if w["reset"]]
+        for bb, where in sites:
             nres += 1
-            if any(c.bb in comp for comp in sccs):
-                inloop.append("%s @ %s" % (short(root_fn(f, n)), c.where()))
+            if any(bb in comp for comp in sccs):
+                inloop.append("%s @ %s" % (short(root_fn(f, n)), where))
     ctx.ob("R-CHK", "xml::decode:no-reset-inside-a-puller-loop", not inloop,
            "no function of xml::decode resets the byte counter inside one of its own event-skipping loops (the limit covers "
            "everything up to and including the element it is set for)", detail=inloop or None)
@@ -219,7 +235,7 @@ def run(ctx):
     # quick-xml is only ever handed the counting reader
     mk = calls_to(f, lambda c: re.search(r"quick_xml::.*(NsReader|Reader).*::from_reader$", c.res or "") is not None)
     sites = sorted({root_fn(f, c.body.name) for c in mk})
-    ok = sites == [D + "Reader::<R>::new"] and all(re.search(r"BufReadCounter::new\(reader\)", K.arg_renders(c)[0]) for c in mk)
+    ok = bool(sites) and sites == _methods(f, D + "Reader", "new") and all(_is_counter_over_param(f, cm, c) for c in mk)
     ctx.ob("R-WHO", "quick_xml-reader-construction", ok,
            "the only quick-xml reader in the crate is built in xml::decode::Reader::new over a BufReadCounter", detail=sites)
 
@@ -748,6 +764,244 @@ def _forall_deltas(f, b, lit_for, need_update=None):
     det["check_blocks"] = sorted(bb for bb, _, _ in sites)
     return ok, det
 
+
+
+# ---------------------------------------------------------------------------------------------
+# C09.b: the counting reader, by role
+#
+# Nothing here depends on the private names `BufReadCounter`, `trip`, `limit`, `reset`, `restart` …: the counting reader
+# is the type quick-xml is instantiated with in the (public) xml::decode::Reader; `trip` is the integer field its
+# BufRead::consume accumulates into and `limit` its other integer field; "what reset_and_limit does" is the set of
+# writes to those two fields in reset_and_limit and in everything of xml::decode it calls with the reader or counter.
+
+_INT_TY = re.compile(r"^[ui](8|16|32|64|128|size)$")
+
+
+def _methods(f, adt, name, trait=None):
+    """def paths of the methods `name` of `adt` (inherent, or of the given trait) — whatever its type parameters are called."""
+    return sorted(n for n, r in f.fns.items() if r.get("name") == name and r.get("impl_adt") == adt and r.get("has_body")
+                  and (r.get("impl_trait") or None) == trait)
+
+
+def counter_model(f):
+    m = {"adt": D + "BufReadCounter", "trip": None, "limit": None, "inner": None, "fill_buf": None, "consume": None,
+         "reset_and_limit": None, "problem": None}
+    rd = f.adts.get(D + "Reader")
+    for fl in (rd["variants"][0]["fields"] if rd and rd.get("variants") else ()):
+        mm = re.search(r"quick_xml::[\w:]*Reader<(xml::decode::\w+)\b", fl["ty"])
+        if mm:
+            m["adt"] = mm.group(1)
+    rl = _methods(f, D + "Reader", "reset_and_limit")
+    m["reset_and_limit"] = rl[0] if len(rl) == 1 else None
+    adt = f.adts.get(m["adt"])
+    if not adt or not adt.get("variants"):
+        m["problem"] = "counting reader type not found"
+        return m
+    ints = [fl["name"] for fl in adt["variants"][0]["fields"] if _INT_TY.match(fl["ty"])]
+    other = [fl["name"] for fl in adt["variants"][0]["fields"] if not _INT_TY.match(fl["ty"])]
+    m["inner"] = other[0] if len(other) == 1 else None
+    for key in ("fill_buf", "consume"):
+        bs = _methods(f, m["adt"], key, "std::io::BufRead")
+        m[key] = f.body(bs[0]) if len(bs) == 1 else None
+    if len(ints) != 2 or m["consume"] is None:
+        m["problem"] = "expected two integer counters and a BufRead::consume, found %r" % (ints,)
+        return m
+    m["fields"] = set(ints)
+    acc = {w["field"] for w in counter_writes(f, m, m["consume"], depth=0)}
+    if len(acc) == 1:
+        m["trip"] = next(iter(acc))
+        m["limit"] = [x for x in ints if x != m["trip"]][0]
+    else:
+        m["problem"] = "consume writes %r" % sorted(acc)
+    return m
+
+
+def _is_counter_helper(f, cm, n):
+    r = f.fns.get(n) or {}
+    return n in f.bodies and r.get("impl_adt") == cm["adt"] and not r.get("impl_trait")
+
+
+def _counter_field(cm, t):
+    """name of the counter field a (place) term denotes, else None."""
+    t = _unmut(t)
+    if t[0] == "field" and len(t) > 3 and t[3] == cm["adt"] and str(t[2]) in cm.get("fields", ()):
+        return str(t[2])
+    return None
+
+
+def _reads_field(cm, v, fld):
+    return any(_counter_field(cm, x) == fld for x in walk(v))
+
+
+def _takes_reader(f, cm, callee):
+    r = f.fns.get(root_fn(f, callee)) or {}
+    return any(i.startswith("&mut ") and (cm["adt"] + "<" in i or cm["adt"] == i[5:] or D + "Reader<" in i) for i in r.get("inputs", ()))
+
+
+def _counter_effects(f, cm, body, depth=4, seen=()):
+    """(writes, fields written on every path to a return) of `body` on the two counters of a counting reader that
+    already exists (reached through a reference), in the vocabulary of `body`'s parameters.  Calls into xml::decode
+    that are handed the reader / the counter mutably are followed."""
+    s = K.sym_of(body)
+    writes = []
+    blocks_of = {}          # field -> blocks after which it has certainly been written
+    consts = getattr(f, "consts", {})
+
+    def add(bb, fld, base, val, via, certain=True):
+        val = K.fold_consts(strip_deep(val), consts)
+        base = strip_deep(base)
+        writes.append({"field": fld, "value": val, "bb": bb, "via": via,
+                       "base_roots": {x[1] for x in walk(base) if x[0] in ("param", "upvar", "var")},
+                       "reset": not _reads_field(cm, val, fld)})
+        if certain:
+            blocks_of.setdefault(fld, set()).add(bb)
+
+    for bi, blk in enumerate(body.blocks):
+        if body.is_cleanup(bi):
+            continue
+        for st in blk["stmts"]:
+            if st["s"] != "assign":
+                continue
+            pl = st["pl"]
+            prj = pl["p"]
+            if prj and prj[-1][0] == "f" and len(prj[-1]) > 2 and prj[-1][2] == cm["adt"] and prj[-1][1] in cm.get("fields", ()):
+                if not any(p[0] == "d" for p in prj) and not body.local_ty(pl["l"]).startswith("&"):
+                    continue            # a value under construction, not an existing reader
+                add(bi, prj[-1][1], s.place({"l": pl["l"], "p": prj[:-1]}), s.rvalue(st["rv"]), short(body.name))
+            elif prj == [["d"]] or (len(prj) == 1 and prj[0][0] == "d"):
+                fld = _counter_field(cm, s.local(pl["l"]))
+                if fld:                 # `*r = v` with r = &mut counter.field
+                    t = _unmut(s.local(pl["l"]))
+                    add(bi, fld, t[1], s.rvalue(st["rv"]), short(body.name))
+        t = blk["term"]
+        if t["t"] != "call":
+            continue
+        c = next((x for x in body.calls() if x.bb == bi), None)
+        if c is None:
+            continue
+        # a counter field lent mutably to a call
+        for k, a in enumerate(t["args"]):
+            pl = a.get("m") or a.get("c") if isinstance(a, dict) else None
+            if not pl or pl["p"] or not body.local_ty(pl["l"]).startswith("&mut "):
+                continue
+            at = s.operand(a)
+            fld = _counter_field(cm, at)
+            if not fld:
+                continue
+            base = _unmut(at)[1]
+            if (c.res or "").endswith("mem::take") and k == 0:
+                add(bi, fld, base, ("const", 0), "mem::take")
+            elif (c.res or "").endswith("mem::replace") and k == 0 and len(t["args"]) == 2:
+                add(bi, fld, base, s.operand(t["args"][1]), "mem::replace")
+            else:
+                add(bi, fld, base, ("unknown", "lent to " + short(c.res or "?")), short(c.res or "?"))
+        callee = c.res if c.is_static else None
+        if callee and depth > 0 and callee in f.bodies and callee not in seen and callee != body.name and \
+                (callee.startswith(D) or callee.startswith("<" + D)) and _takes_reader(f, cm, callee):
+            cb = f.bodies[callee]
+            cw, cmust = _counter_effects(f, cm, cb, depth - 1, tuple(seen) + (body.name,))
+            mapping = {}
+            for i, a in enumerate(t["args"]):
+                nm = cb.local_name(i + 1) or "_%d" % (i + 1)
+                mapping[nm] = s.operand(a)
+            for w in cw:
+                base_roots = set()
+                for r_ in w["base_roots"]:
+                    mt = mapping.get(r_)
+                    base_roots |= {x[1] for x in walk(strip_deep(mt)) if x[0] in ("param", "upvar", "var")} if mt else {r_}
+                val = K.fold_consts(strip_deep(K._subst(w["value"], mapping)), consts)
+                writes.append({"field": w["field"], "value": val, "bb": bi, "via": short(callee) + "←" + w["via"],
+                               "base_roots": base_roots, "reset": w["reset"]})
+            for fld in cmust:
+                blocks_of.setdefault(fld, set()).add(bi)
+    rets = set(body.return_blocks())
+    must = set()
+    for fld, bbs in blocks_of.items():
+        if not (rets & set(body.reachable(0, removed_blocks=bbs))):
+            must.add(fld)
+    return writes, must
+
+
+def counter_writes(f, cm, body, depth=4):
+    return _counter_effects(f, cm, body, depth)[0]
+
+
+def counter_must_write(f, cm, body, depth=4):
+    return _counter_effects(f, cm, body, depth)[1]
+
+
+def counter_resetters(f, cm):
+    """(who, resetters): the functions that set a counter of an existing counting reader to a value not derived from
+    the counter itself, with private plumbing (non-exported inherent functions) resolved to its callers; and all the
+    functions on the way (a call to any of them resets)."""
+    adt_short = cm["adt"].rsplit("::", 1)[-1]
+    direct = set()
+    for n, b in f.bodies.items():
+        if not any(adt_short in (l.get("ty") or "") for l in b.rec.get("locals", ())):
+            continue
+        if any(w["reset"] for w in counter_writes(f, cm, b, depth=0)):
+            direct.add(root_fn(f, n))
+    RL = cm["reset_and_limit"]
+    who, resetters, seen, work = set(), set(), set(), sorted(direct)
+    while work:
+        n = work.pop()
+        if n in seen:
+            continue
+        seen.add(n)
+        resetters.add(n)
+        r = f.fns.get(n) or {}
+        if n != RL and r and not r.get("exported") and not r.get("impl_trait") and r.get("vis") != "pub(crate)" and \
+                (n.startswith(D) or n.startswith("<" + D)):
+            work += sorted({root_fn(f, c.body.name) for c in calls_to(f, lambda c, n=n: c.res == n) if not c.body.is_cleanup(c.bb)})
+        else:
+            who.add(n)
+    return sorted(who), resetters
+
+
+def _is_saturating_accumulate(v, trip, amt):
+    """v is `self.trip ⊕ amt` with ⊕ an addition that saturates, whatever the conversion of amt to the counter's type."""
+    def is_amt(t):
+        t = _unmut(strip_deep(t))
+        if t == amt:
+            return True
+        if t[0] == "cast":
+            return is_amt(t[1])
+        if t[0] == "call":
+            nm = (t[3] or {}).get("name")
+            if nm in ("unwrap_or_default", "try_from", "try_into", "from", "into") and len(t[2]) == 1:
+                return is_amt(t[2][0])
+            if nm == "unwrap_or" and len(t[2]) == 2 and strip_deep(t[2][1])[0] in ("const", "cdef"):
+                return is_amt(t[2][0])
+        return False
+
+    def is_trip(t):
+        return render(_unmut(strip_deep(t))) == "self.%s" % trip
+
+    def sum_of(t, names):
+        t = _unmut(strip_deep(t))
+        return t[0] == "call" and (t[3] or {}).get("name") in names and len(t[2]) == 2 and \
+            ((is_trip(t[2][0]) and is_amt(t[2][1])) or (is_trip(t[2][1]) and is_amt(t[2][0])))
+    v = _unmut(strip_deep(v))
+    if sum_of(v, ("saturating_add",)):
+        return True
+    if v[0] == "call" and (v[3] or {}).get("name") == "unwrap_or" and len(v[2]) == 2 and sum_of(v[2][0], ("checked_add",)):
+        top = strip_deep(v[2][1])
+        return (top[0] == "const" and top[1] in (2 ** 64 - 1, 2 ** 32 - 1, 2 ** 128 - 1)) or (top[0] == "cdef" and top[1].endswith("::MAX"))
+    return False
+
+
+def _is_counter_over_param(f, cm, c):
+    """the argument of this call is a counting reader freshly built over a parameter of the calling function."""
+    t = strip_deep(K.arg_terms(c)[0])
+    if not any(cm["adt"] in g for g in (c.ga or ())):
+        return False
+    over = any(x[0] == "param" for x in walk(t))
+    if t[0] == "agg":
+        return t[1] == cm["adt"] and over
+    if t[0] == "call":
+        r = f.fns.get((t[3] or {}).get("res") or t[1]) or {}
+        return (r.get("output") or "").startswith(cm["adt"]) and over
+    return False
 
 
 def _with_private_helpers(f, names, mod="rrdp::"):
